@@ -522,11 +522,16 @@ class DataFrameSchemaBackend(PolarsSchemaBackend):
     def set_default(self, check_obj: pl.LazyFrame, schema) -> pl.LazyFrame:
         """Set default values for columns with missing values."""
 
+        lf_columns = get_lazyframe_column_names(check_obj)
         for col_schema in [
             s
             for s in schema.columns.values()
             if hasattr(s, "default") and s.default is not None
         ]:
+            # nothing to fill for a column the frame doesn't have; the name of
+            # a regex column is a pattern, which is resolved by the selector
+            if not col_schema.regex and col_schema.name not in lf_columns:
+                continue
             backend = col_schema.get_backend(check_obj)
             check_obj = backend.set_default(check_obj, col_schema)
 
